@@ -61,7 +61,7 @@ func init() {
 		Old: "\t\tswitch err {\n\t\tcase nil:\n\t\t\tr.line++\n\t\tdefault:\n\t\t\treturn nil, err\n\t\t}", New: "\t\tswitch err {\n\t\tcase nil:\n\t\t\tr.line++\n\t\tcase io.EOF:\n\t\t\treturn nil, err\n\t\t}",
 		Rule: "K9", Substr: "readLine", Why: "a persistent read error keeps the line loop spinning"})
 	control(Control{ID: "c03-read-recurses", Prop: "C03", File: "extensions/omniv21/fileformat/csv/reader.go",
-		Old: "\t\tgoto read\n", New: "\t\treturn r.Read()\n", Rule: "K10", Substr: "csv.reader).Read", Why: "one stack frame per filtered-out record"})
+		Old: "\t\tgoto read\n", New: "\t\tif r.xpath == nil {\n\t\t\tgoto read\n\t\t}\n\t\treturn r.Read()\n", Rule: "K10", Substr: "csv.reader).Read", Why: "one stack frame per filtered-out record"})
 	control(Control{ID: "c03-stationary-loop", Prop: "C03", File: "idr/navigator.go",
 		Old: "\tfor ; n != nil && n.Type == AttributeNode; n = n.NextSibling {", New: "\tfor ; n != nil && n.Type == AttributeNode; n = n {",
 		Rule: "K11", Substr: "MoveToChild", Why: "loop variable never advances"})
